@@ -90,7 +90,12 @@ namespace bloch::update {
             if (const char* home = std::getenv("HOME"); home && *home) {
                 return std::filesystem::path(home) / ".cache" / "bloch" / "update_cache.txt";
             }
-            return std::filesystem::temp_directory_path() / "bloch-update-cache.txt";
+            // non-throwing: TMPDIR may name a directory that does not exist
+            std::error_code ec;
+            auto tmp = std::filesystem::temp_directory_path(ec);
+            if (ec)
+                tmp = std::filesystem::path(".");
+            return tmp / "bloch-update-cache.txt";
         }
 
         UpdateCache emptyCache() {
@@ -805,13 +810,19 @@ namespace bloch::update {
         const auto assetName = "bloch-" + *latest + "-" + os + "-" + arch + ".tar.gz";
         const auto basePath = "/bloch-labs/bloch/releases/download/" + *latest;  // host: github.com
 
+        std::error_code ec;
+        const auto tempRoot = std::filesystem::temp_directory_path(ec);
+        if (ec) {
+            std::cerr << "No usable temporary directory (" << ec.message() << "); not updating."
+                      << std::endl;
+            return false;
+        }
         const auto tempDir =
-            std::filesystem::temp_directory_path() /
+            tempRoot /
             ("bloch-update-" + std::to_string(std::chrono::duration_cast<std::chrono::milliseconds>(
                                                   Clock::now().time_since_epoch())
                                                   .count()));
         TempDirGuard cleanup(tempDir);
-        std::error_code ec;
         std::filesystem::create_directories(tempDir, ec);
         const auto archivePath = tempDir / assetName;
 
